@@ -151,7 +151,12 @@ def check(rec, cell, decls, obj, cons, sharing=True):
     except (R.ShapeError, R.OutOfModel):
         return
     try:
-        b = (SharingBuilder if sharing else B.Builder)(decls)
+        if sharing == "fresh-leaves":
+            # every mention of a scalar variable is a new Variable object of that name: still ONE problem variable per name
+            b = B.Builder(decls, fresh_leaves=True)
+            rec.cells["builder:fresh-variable-object-per-mention"] += 1
+        else:
+            b = (SharingBuilder if sharing else B.Builder)(decls)
         P = b.problem(prob)
     except Exception as ex:
         rec.events["unsupported-build:" + type(ex).__name__] += 1
@@ -218,7 +223,7 @@ def run(ctx, rec):
             continue
         if r == 0:
             decls, obj, cons = name_stress_case(rng)
-            check(rec, "name-stress", decls, obj, cons)
+            check(rec, "name-stress", decls, obj, cons, sharing=True if n % 8 else "fresh-leaves")
         elif r == 1:
             g = G.Gen(rng, bounds=True, params=rng.random() < 0.2)
             obj = g.scalar()
@@ -227,7 +232,7 @@ def run(ctx, rec):
                 rr = random_rel_over(rng, g)
                 if rr is not None:
                     cons.append(rr)
-            check(rec, "random", copy.deepcopy(g.decls), obj, cons, sharing=rng.random() < 0.5)
+            check(rec, "random", copy.deepcopy(g.decls), obj, cons, sharing=rng.choice([True, False, "fresh-leaves"]))
         elif n % 8 == 2:
             # deep objective in which one vector is mentioned by exactly ONE vector node whose other operand recurs elsewhere
             decls = [{"k": "vec", "name": "x", "n": 3, "lb": -1.0, "ub": 2.0}, {"k": "vec", "name": "y", "n": 3}, {"k": "vec", "name": "w", "n": 3, "ub": 5.0},
